@@ -11,17 +11,17 @@ case "$1" in
   setup)
     flock /tmp/repo-git.lock git -C /repo worktree add -q --detach $WT HEAD
     mkdir -p $RIG
-    rsync -a --delete --exclude work --exclude replays /verif/ $RIG/
+    rsync -a --delete --exclude work --exclude replays /verif/ $RIG/ 2>/dev/null || true
     sed -i "s#/repo#$WT#g" $RIG/harness/Cargo.toml
     ;;
   sync)
-    rsync -a --exclude work --exclude replays --exclude harness/target --exclude lean/.lake --exclude harness/Cargo.toml /verif/ $RIG/
+    rsync -a --exclude .git --exclude work --exclude replays --exclude harness/target --exclude lean/.lake --exclude harness/Cargo.toml /verif/ $RIG/
     git -C $WT checkout -q -- . ; git -C $WT checkout -q --detach $(git -C /repo rev-parse HEAD)
     ;;
   run)
     patch="$2"; shift 2
     git -C $WT checkout -q -- .
-    git -C $WT apply "$patch"
+    git -C $WT apply "$patch" 2>/dev/null || git -C $WT apply -3 "$patch" || { echo "PATCH DOES NOT APPLY to $(git -C $WT rev-parse --short HEAD)"; git -C $WT checkout -q -- .; exit 3; }
     rc=0
     for p in "$@"; do
       (cd $RIG && VERIF_REPO=$WT ./check $p --tier quick 2>&1 | grep -E "VIOLATION|KNOWN-FINDING|^C[0-9]+:" | cut -c1-300) || true
